@@ -110,6 +110,22 @@ def make_description(case, container):
             connectivity=getattr(layouts, case["layout"])(),
             qubit_refocusing=case["refocus"],
         )
+    if kind == "composite":
+        # a derived description wrapped in a composite one with gate / qubit exclusions (parking-only layers etc.)
+        from qce_circuit.library.repetition_code.circuit_components import CompositeRepetitionCodeDescription
+        from qce_circuit.connectivity.intrf_channel_identifier import EdgeIDObj
+        layout = getattr(layouts, case["layout"])()
+        involved = [QubitIDObj(n) for n in case["qubits"]]
+        base = RepetitionCodeDescription.from_connectivity(involved_qubit_ids=involved, connectivity=layout,
+                                                           qubit_refocusing=case["refocus"])
+        return CompositeRepetitionCodeDescription(
+            _base_description=base,
+            _qubit_index_map={q: i for i, q in enumerate(involved)},
+            _connectivity=layout,
+            _exclude_gate_edge_ids=[EdgeIDObj.from_qubit_ids(a, b) for a, b in case.get("exclude_edges", [])],
+            _exclude_gate_qubit_ids=[QubitIDObj(n) for n in case.get("exclude_qubits", [])],
+            _only_required_parking_operations=case.get("only_required", False),
+        )
     raise ValueError(kind)
 
 
